@@ -21,8 +21,8 @@ type Env struct {
 	sp    *spine
 	fmtc  *fmtInfo
 	xs    *core.Symbolizer
-	fs   *core.Symbolizer
-	upds []upd
+	fs    *core.Symbolizer
+	upds  []upd
 }
 
 var Registry = map[string]func(*Env){}
